@@ -53,6 +53,15 @@ Section CompSpec.
                | _ => false
                end) names.
 
+  (* the adjacency query succeeds on every node and stays inside the node list *)
+  Definition step_total_b (g : gstate) : bool :=
+    let names := g_nodes g in
+    forallb (fun u =>
+               match get_successors_or_neighbors teqb g u with
+               | Ok ns => forallb (fun v => memb teqb v names) (map nname ns)
+               | _ => false
+               end) names.
+
   Definition row_of (m : list (T * list T)) (v : T) : list T :=
     match lookup teqb v m with Some l => l | None => [] end.
 
